@@ -786,7 +786,7 @@ def do_directions(part, start, end, counter):
                     # For Flake8 (ignore unused variable), since
                     # etree.SubElement adds e2e to e1e
                     e2e = etree.SubElement(  # noqa: F841
-                        e1e, "pedal", type="end", **pedal_kwargs
+                        e1e, "pedal", type="stop", **pedal_kwargs
                     )
                 if direction.staff is not None and direction.staff != 1:
                     e3e = etree.SubElement(e0e, "staff")
